@@ -10,7 +10,8 @@ PROPERTY = 'C15'
 
 
 def contracts(tier):
-    return []
+    from . import mutsym
+    return mutsym.contracts(tier)
 
 
 def native_checks(tier):
